@@ -15,6 +15,8 @@ import (
 var families = map[string]func(*h.Run){
 	"C01": props.C01,
 	"C03": props.C03,
+	"C04": props.C04,
+	"C09": props.C09,
 	"C10": props.C10,
 	"C16": props.C16,
 	"C18": props.C18,
